@@ -336,6 +336,10 @@ def extra(ctx, cfg, results):
 
 
 def replay(ctx, cfg, r):
+    if r.get("kind") == "custom-cli-verify":
+        # a replay file of the part CLIverify (`anthem verify`)
+        import CLIverify
+        return CLIverify.replay(ctx, cfg, r)
     print(json.dumps({k: v for k, v in r.items() if k not in ("unshrunk_input_text",)}, indent=1)[:6000])
     if "command" not in r:
         print(f"VIOLATION property={ctx.prop} replay=(recorded)")
